@@ -352,5 +352,28 @@ init_v:
     ret
 msg_v: .db \"ok\", 0, 0
 "),
+        // a macro whose body defines a label and refers to it, called once; an alias and a
+        // variable used inside a macro body and re-bound after the call
+        ("macro-inner-label", "\
+.def tmp_a = r16
+.set cnt_v = 3
+.macro wait_m
+    ldi tmp_a, cnt_v
+wait_top_l:
+    dec tmp_a
+    brne wait_top_l
+    rjmp wait_end_l
+    nop
+wait_end_l:
+    .dw wait_top_l, cnt_v
+.endm
+    ldi r17, 1
+    wait_m
+.undef tmp_a
+.def tmp_a = r18
+.set cnt_v = 5
+    ldi tmp_a, cnt_v
+    ldi r17, low(wait_top_l)
+"),
     ]
 }
